@@ -11,7 +11,13 @@
                                         the extent test chooses, the cut list satisfies cuts_spec (between 1 and num_cuts cuts,
                                         finite, non-decreasing; the midpoint when no coordinate is strictly inside, otherwise
                                         coordinates of the subject STRICTLY between the minimum and the maximum)
-     fracture_cuts_crash_lemma          all chosen-axis coordinates equal: Crash (the unbounded first scan)
+     fracture_cuts_no_crash_lemma       EVERY vertex list of finite doubles with 4 < max_points < n < 2^53: the model returns a
+                                        cut list (no Crash / Hang: no out-of-bounds access anywhere), 1 .. num_cuts cuts
+     fracture_cuts_all_equal_lemma      all chosen-axis coordinates equal: the repaired first scan stops at the end of the
+                                        array, interior count 0, the single cut is the midpoint of two equal numbers = that
+                                        coordinate
+     fracture_cuts_unrepaired_crash_lemma, fracture_cuts_unrepaired_refuted
+                                        the code before commit e912cb9 (unbounded first scan): Crash on exactly those inputs
      degenerate_axis_iff_lemma          ... which happens exactly when all vertices are one point (given the axis rule)
      cuts_within_lemma                  (3) every cut lies within [min, max] (midpoint included: rounding cannot leave it)
      midpoint_exact_strict_lemma        the midpoint is exact and strictly inside when both values are multiples of one power
@@ -574,10 +580,19 @@ Proof.
   - inversion Hp; subst. rewrite H1. rewrite IH by assumption. f_equal. lia.
 Qed.
 
-(* every element equals coords[0]: the scan leaves the allocation *)
-Lemma scan_front_crash : forall c0 l k, Forall (fun y => deq y c0 = true) l -> scan_front c0 l k = Crash.
+(* every element equals coords[0]: the repaired scan stops at the end of the allocation ... *)
+Lemma scan_front_all : forall c0 l k, Forall (fun y => deq y c0 = true) l ->
+  scan_front c0 l k = Ok (k + N.of_nat (length l))%N.
 Proof.
-  intros c0; induction l as [|a l IH]; intros k H; cbn [scan_front]; [reflexivity|].
+  intros c0; induction l as [|a l IH]; intros k H; cbn [scan_front length]; [f_equal; lia|].
+  inversion H; subst. rewrite H2, IH by assumption. f_equal. lia.
+Qed.
+
+(* ... the scan before commit e912cb9 left it *)
+Lemma scan_front_unrepaired_crash : forall c0 l k, Forall (fun y => deq y c0 = true) l ->
+  scan_front_unrepaired c0 l k = Crash.
+Proof.
+  intros c0; induction l as [|a l IH]; intros k H; cbn [scan_front_unrepaired]; [reflexivity|].
   inversion H; subst. rewrite H2. now apply IH.
 Qed.
 
@@ -734,7 +749,7 @@ Proof.
   assert (Fcl : d_finite cl = true).
   { apply all_fin_app in Fs. destruct Fs as (_ & Fs). inversion Fs; auto. }
   assert (Fsuf : all_fin suf) by (apply all_fin_app in Fs; apply Fs).
-  unfold cuts_of_sorted.
+  unfold cuts_of_sorted, cuts_of_sorted_with.
   (* coords[0] *)
   assert (E0 : get r 0 = Ok c0) by reflexivity. rewrite E0. cbn [obind].
   (* coords[num_points - 1] *)
@@ -794,6 +809,35 @@ Qed.
 
 (* ====================================================================== part 7 *)
 
+(* all the sorted coordinates equal: interior_coords.items stops at coords + num_points, interior_coords.count = 0 *)
+Lemma cuts_of_sorted_all_equal : forall (c0 cl : dbl) (body : list dbl) (k : N),
+  let r := c0 :: body ++ [cl] in
+  all_fin r -> Forall (fun x => R64 x = R64 c0) r -> (Z.of_nat (length r) < 2 ^ 64)%Z ->
+  cuts_of_sorted r (N.of_nat (length r)) k = Ok [midpoint c0 cl].
+Proof.
+  intros c0 cl body k r Hfin Heq Hlen. unfold cuts_of_sorted, cuts_of_sorted_with.
+  assert (E0 : get r 0 = Ok c0) by reflexivity. rewrite E0. cbn [obind].
+  assert (El : get r (Z.of_N (N.of_nat (length r)) - 1) = Ok cl).
+  { unfold r. replace (Z.of_N (N.of_nat (length (c0 :: body ++ [cl]))) - 1)%Z with (Z.of_nat (length (c0 :: body))).
+    - apply (get_app_mid (c0 :: body) cl []).
+    - cbn [length]. rewrite app_length. cbn [length]. lia. }
+  rewrite El. cbn [obind].
+  assert (F0 : d_finite c0 = true) by (inversion Hfin; auto).
+  assert (Hd : Forall (fun y => deq y c0 = true) r).
+  { apply Forall_forall. intros y Hy. unfold all_fin in Hfin. rewrite Forall_forall in Hfin, Heq. apply deq_spec; auto. }
+  rewrite (scan_front_all c0 r 0 Hd). cbn [obind]. rewrite N.add_0_l, Nat2N.id, skipn_all.
+  replace ((N.of_nat (length r) + 2 ^ 64 - N.of_nat (length r)) mod 2 ^ 64)%N with 0%N.
+  - reflexivity.
+  - replace (N.of_nat (length r) + 2 ^ 64 - N.of_nat (length r))%N with (0 + 1 * 2 ^ 64)%N by lia.
+    rewrite N.mod_add by lia. reflexivity.
+Qed.
+
+Lemma midpoint_same : forall a b : dbl, d_small a -> d_small b -> R64 a = R64 b ->
+  d_finite (midpoint a b) = true /\ R64 (midpoint a b) = R64 a.
+Proof.
+  intros a b Sa Sb E. destruct (midpoint_within_lemma a b Sa Sb) as (F & M); [lra|]. split; [exact F|lra].
+Qed.
+
 Lemma num_cuts_bounds : forall n mp : N, (4 < mp)%N -> (mp < n)%N -> (Z.of_N n < 2 ^ 53)%Z ->
   (1 <= n / mp)%N /\ (Z.of_N (n / mp) <= 2 ^ 51)%Z.
 Proof.
@@ -830,69 +874,123 @@ Proof.
   unfold pt_finite. now rewrite A, B.
 Qed.
 
+Lemma axis_coords_fin : forall ax pts, forallb pt_finite pts = true -> all_fin (axis_coords ax pts).
+Proof.
+  intros ax pts H. unfold all_fin, axis_coords. apply Forall_forall. intros c Hc. apply in_map_iff in Hc.
+  destruct Hc as (p & E & Hp). rewrite forallb_forall in H. specialize (H p Hp). unfold pt_finite in H.
+  apply andb_prop in H. destruct H as (A & B). subst c. destruct ax; auto.
+Qed.
+
 Section Main.
 Variable max_points : N.
 Variable pts : list dpoint.
 Let n := N.of_nat (length pts).
-Hypothesis Hsmall : Forall pt_small pts.
+Hypothesis Hfin : forallb pt_finite pts = true.
 Hypothesis H4 : (4 < max_points)%N.
 Hypothesis Hn : (max_points < n)%N.
 Hypothesis Hn53 : (Z.of_N n < 2 ^ 53)%Z.
 Let ax := choose_x_axis (bounding_box pts).
 Let coords := axis_coords ax pts.
+Let k := (n / max_points)%N.
 
 Lemma fracture_cuts_unfold :
   fracture_cuts max_points pts =
     obind (Sort.sort dlt_fin coords) (fun sorted =>
-    obind (cuts_of_sorted sorted n (n / max_points)%N) (fun cuts => Ok (Cuts ax cuts))).
+    obind (cuts_of_sorted sorted n k) (fun cuts => Ok (Cuts ax cuts))).
 Proof.
-  unfold fracture_cuts. rewrite pts_finite by exact Hsmall. cbn [negb].
+  unfold fracture_cuts, fracture_cuts_with. rewrite Hfin. cbn [negb].
   destruct (N.leb_spec max_points 4); [lia|]. fold n.
   destruct (N.leb_spec n max_points); [lia|]. reflexivity.
 Qed.
 
 Lemma sorted_coords : exists r, Sort.sort dlt_fin coords = Ok r /\ Permutation coords r /\ nondecr r /\
-  Forall d_small r /\ length r = length pts.
+  all_fin r /\ length r = length pts.
 Proof.
   destruct (sort_ordered_permutation_lemma dbl dlt_fin coords dlt_fin_swo) as (r & E & P & _).
   destruct (sort_sorted_lemma dbl dlt_fin coords r dlt_fin_swo E) as (_ & S).
-  assert (Hs : Forall d_small r).
-  { apply Forall_forall. intros x Hx. apply Permutation_sym in P.
-    assert (Hc := Permutation_in x P Hx). generalize (axis_coords_small ax pts Hsmall). rewrite Forall_forall. auto. }
+  assert (Hs : all_fin r).
+  { unfold all_fin. apply Forall_forall. intros x Hx. apply Permutation_sym in P.
+    assert (Hc := Permutation_in x P Hx). generalize (axis_coords_fin ax pts Hfin). unfold all_fin. rewrite Forall_forall. auto. }
   exists r. repeat split; auto.
-  - apply sorted_nondecr; auto. unfold all_fin. apply Forall_forall. intros x Hx. rewrite Forall_forall in Hs. apply Hs; auto.
+  - apply sorted_nondecr; auto.
   - rewrite <- (Permutation_length P). unfold coords, axis_coords. apply map_length.
 Qed.
 
-(* (1)-(3): the chosen-axis coordinates are not all equal -> slice is called with a cut list as specified *)
-Theorem fracture_cuts_ok_lemma :
-  ~ all_equal coords ->
-  exists cs, fracture_cuts max_points pts = Ok (Cuts ax cs) /\ cuts_spec coords cs (n / max_points)%N.
+(* one round, for every finite input: the sorted coordinates c0 ... cl, and what fracture_cuts computes in the two cases *)
+Lemma fracture_cuts_run : exists c0 body cl,
+  Permutation coords (c0 :: body ++ [cl]) /\ nondecr (c0 :: body ++ [cl]) /\ all_fin (c0 :: body ++ [cl]) /\
+  (R64 c0 < R64 cl ->
+     exists pre mid suf, c0 :: body ++ [cl] = (c0 :: pre) ++ mid ++ suf ++ [cl] /\
+       Forall (fun x => R64 x = R64 c0) pre /\ Forall (fun x => R64 c0 < R64 x < R64 cl) mid /\
+       Forall (fun x => R64 x = R64 cl) suf /\ nondecr mid /\ (Z.of_nat (length mid) < 2 ^ 53)%Z /\
+       fracture_cuts max_points pts =
+         obind (choose_cuts c0 cl (mid ++ suf ++ [cl]) (N.of_nat (length mid)) k) (fun cuts => Ok (Cuts ax cuts))) /\
+  (~ R64 c0 < R64 cl ->
+     Forall (fun x => R64 x = R64 c0) (c0 :: body ++ [cl]) /\
+     fracture_cuts max_points pts = Ok (Cuts ax [midpoint c0 cl])).
 Proof.
-  intros Hne. rewrite fracture_cuts_unfold.
-  destruct sorted_coords as (r & E & P & S & Hs & L). rewrite E. cbn [obind].
+  destruct sorted_coords as (r & E & P & S & Fr & L).
   destruct (nonempty_ends r) as (c0 & body & cl & Er); [unfold n in Hn; lia|].
-  assert (Fr : all_fin r).
-  { unfold all_fin. apply Forall_forall. intros x Hx. rewrite Forall_forall in Hs. apply Hs; auto. }
-  rewrite Er in S, Fr, P, Hs, L.
+  rewrite Er in S, Fr, P, L. exists c0, body, cl. split; [exact P|]. split; [exact S|]. split; [exact Fr|].
   assert (Hmin : forall x, In x (c0 :: body ++ [cl]) -> R64 c0 <= R64 x) by (intros; eapply nondecr_head_min; eauto).
   assert (Hmax : forall x, In x (c0 :: body ++ [cl]) -> R64 x <= R64 cl).
   { intros x Hx. apply (nondecr_last_max (c0 :: body) cl x); auto. }
-  assert (Hlt : R64 c0 < R64 cl).
+  assert (Ln : n = N.of_nat (length (c0 :: body ++ [cl]))) by (unfold n; now rewrite L).
+  assert (L64 : (Z.of_nat (length (c0 :: body ++ [cl])) < 2 ^ 64)%Z) by (rewrite L; unfold n in Hn53; lia).
+  split.
+  - intros Hlt. destruct (sorted_three c0 cl body S Hlt) as (pre & mid & suf & Ed & Apre & Amid & Asuf).
+    exists pre, mid, suf. split; [exact Ed|]. split; [exact Apre|]. split; [exact Amid|]. split; [exact Asuf|].
+    rewrite Ed in S, Fr, Ln, L64.
+    destruct (nondecr_app_inv _ _ S) as (_ & S2 & _). destruct (nondecr_app_inv _ _ S2) as (Smid & _ & _).
+    split; [exact Smid|]. split.
+    { rewrite Ln in Hn53. rewrite !app_length in Hn53. lia. }
+    rewrite fracture_cuts_unfold, E. cbn [obind]. rewrite Er, Ed.
+    rewrite (f_equal (fun z => cuts_of_sorted ((c0 :: pre) ++ mid ++ suf ++ [cl]) z k) Ln).
+    rewrite cuts_of_sorted_ok; auto.
+  - intros Hnlt.
+    assert (Heq : Forall (fun x => R64 x = R64 c0) (c0 :: body ++ [cl])).
+    { apply Forall_forall. intros x Hx. generalize (Hmin x Hx) (Hmax x Hx). lra. }
+    split; [exact Heq|].
+    rewrite fracture_cuts_unfold, E. cbn [obind]. rewrite Er.
+    rewrite (f_equal (fun z => cuts_of_sorted (c0 :: body ++ [cl]) z k) Ln).
+    rewrite cuts_of_sorted_all_equal; auto.
+Qed.
+
+(* no out-of-bounds access anywhere: for EVERY vertex list of finite doubles the model returns a cut list *)
+Lemma fracture_cuts_no_crash_main :
+  exists cs, fracture_cuts max_points pts = Ok (Cuts ax cs) /\ (1 <= length cs)%nat /\ (N.of_nat (length cs) <= k)%N.
+Proof.
+  destruct fracture_cuts_run as (c0 & body & cl & P & S & Fr & Hlt & Heq).
+  destruct (num_cuts_bounds n max_points H4 Hn Hn53) as (K1 & K51). fold k in K1, K51.
+  destruct (Rlt_dec (R64 c0) (R64 cl)) as [H|H].
+  - destruct (Hlt H) as (pre & mid & suf & _ & _ & _ & _ & Smid & Lmid & E).
+    destruct (choose_cuts_ok c0 cl mid (suf ++ [cl]) k Smid K1 K51 Lmid) as (cs & Ecs & C1 & C2 & _).
+    exists cs. rewrite E, Ecs. cbn [obind]. auto.
+  - destruct (Heq H) as (_ & E). exists [midpoint c0 cl]. rewrite E. cbn [length]. repeat split; lia.
+Qed.
+
+(* (1)-(3): the chosen-axis coordinates are not all equal -> slice is called with a cut list as specified *)
+Lemma fracture_cuts_ok_main : Forall pt_small pts ->
+  ~ all_equal coords ->
+  exists cs, fracture_cuts max_points pts = Ok (Cuts ax cs) /\ cuts_spec coords cs k.
+Proof.
+  intros Hsmall Hne.
+  destruct fracture_cuts_run as (c0 & body & cl & P & S & Fr & Hlt & Heq).
+  assert (Hs : Forall d_small (c0 :: body ++ [cl])).
+  { apply Forall_forall. intros x Hx. apply Permutation_sym in P.
+    assert (Hc := Permutation_in x P Hx). generalize (axis_coords_small ax pts Hsmall). rewrite Forall_forall. auto. }
+  assert (Hmin : forall x, In x (c0 :: body ++ [cl]) -> R64 c0 <= R64 x) by (intros; eapply nondecr_head_min; eauto).
+  assert (Hmax : forall x, In x (c0 :: body ++ [cl]) -> R64 x <= R64 cl).
+  { intros x Hx. apply (nondecr_last_max (c0 :: body) cl x); auto. }
+  assert (Hl : R64 c0 < R64 cl).
   { destruct (Rlt_or_le (R64 c0) (R64 cl)) as [H|H]; [exact H|]. exfalso. apply Hne.
     intros c c' Hc Hc'. apply (Permutation_in _ P) in Hc. apply (Permutation_in _ P) in Hc'.
     generalize (Hmin c Hc) (Hmax c Hc) (Hmin c' Hc') (Hmax c' Hc'). lra. }
-  destruct (sorted_three c0 cl body S Hlt) as (pre & mid & suf & Ed & Apre & Amid & Asuf).
-  rewrite Er, Ed in *.
-  assert (Ln : n = N.of_nat (length ((c0 :: pre) ++ mid ++ suf ++ [cl]))) by (unfold n; now rewrite L).
-  destruct (num_cuts_bounds n max_points H4 Hn Hn53) as (K1 & K51).
-  set (k := (n / max_points)%N) in *.
-  rewrite (f_equal (fun z => cuts_of_sorted ((c0 :: pre) ++ mid ++ suf ++ [cl]) z k) Ln).
-  rewrite cuts_of_sorted_ok; auto; [|rewrite L; unfold n in Hn53; lia].
-  destruct (nondecr_app_inv _ _ S) as (_ & S2 & _). destruct (nondecr_app_inv _ _ S2) as (Smid & _ & _).
-  destruct (choose_cuts_ok c0 cl mid (suf ++ [cl]) k Smid K1 K51) as (cs & Ecs & C1 & C2 & C3).
-  { rewrite Ln in Hn53. rewrite !app_length in Hn53. lia. }
-  rewrite Ecs. cbn [obind]. exists cs. split; [reflexivity|].
+  destruct (Hlt Hl) as (pre & mid & suf & Ed & Apre & Amid & Asuf & Smid & Lmid & E).
+  destruct (num_cuts_bounds n max_points H4 Hn Hn53) as (K1 & K51). fold k in K1, K51.
+  destruct (choose_cuts_ok c0 cl mid (suf ++ [cl]) k Smid K1 K51 Lmid) as (cs & Ecs & C1 & C2 & C3).
+  rewrite E, Ecs. cbn [obind]. exists cs. split; [reflexivity|].
+  rewrite Ed in P, Hs, Hmin, Hmax.
   assert (In0 : In c0 coords) by (apply (Permutation_in _ (Permutation_sym P)); left; reflexivity).
   assert (Inl : In cl coords).
   { apply (Permutation_in _ (Permutation_sym P)). apply in_or_app; right. apply in_or_app; right. apply in_or_app; right. left; reflexivity. }
@@ -900,7 +998,7 @@ Proof.
   { intros c Hc. apply (Permutation_in _ (Permutation_sym P)). apply in_or_app; right. apply in_or_app; left; exact Hc. }
   exists c0, cl. split; [exact In0|]. split; [exact Inl|]. split.
   { intros c Hc. apply (Permutation_in _ P) in Hc. split; [apply Hmin|apply Hmax]; exact Hc. }
-  split; [exact Hlt|]. split; [exact C1|]. split; [exact C2|].
+  split; [exact Hl|]. split; [exact C1|]. split; [exact C2|].
   assert (S0 : d_small c0) by (rewrite Forall_forall in Hs; apply Hs; left; reflexivity).
   assert (Sl : d_small cl).
   { rewrite Forall_forall in Hs; apply Hs. apply in_or_app; right. apply in_or_app; right. apply in_or_app; right. left; reflexivity. }
@@ -918,26 +1016,81 @@ Proof.
       split; [apply Inmid, Ic, Hc | apply Amid, Ic, Hc].
 Qed.
 
-(* the chosen-axis coordinates are all equal: the first scan runs off the array *)
-Theorem fracture_cuts_crash_lemma :
-  all_equal coords -> fracture_cuts max_points pts = Crash.
+(* the chosen-axis coordinates are all equal (all vertices one point): since commit e912cb9 the first scan stops at the end
+   of the array, interior_coords.count is 0 and the single cut is the midpoint of two equal numbers, that is the coordinate *)
+Lemma fracture_cuts_all_equal_main : Forall pt_small pts ->
+  all_equal coords ->
+  exists c c', In c coords /\ In c' coords /\
+    fracture_cuts max_points pts = Ok (Cuts ax [midpoint c c']) /\
+    d_finite (midpoint c c') = true /\ forall x, In x coords -> R64 (midpoint c c') = R64 x.
 Proof.
-  intros Heq. rewrite fracture_cuts_unfold.
-  destruct sorted_coords as (r & E & P & S & Hs & L). rewrite E. cbn [obind].
-  destruct (nonempty_ends r) as (c0 & body & cl & Er); [unfold n in Hn; lia|].
-  unfold cuts_of_sorted. rewrite Er. assert (E0 : get (c0 :: body ++ [cl]) 0 = Ok c0) by reflexivity. rewrite E0. cbn [obind].
-  assert (El : get (c0 :: body ++ [cl]) (Z.of_N n - 1) = Ok cl).
-  { replace (Z.of_N n - 1)%Z with (Z.of_nat (length (c0 :: body))).
-    - apply (get_app_mid (c0 :: body) cl []).
-    - unfold n. rewrite <- L, Er. cbn [length]. rewrite app_length. cbn [length]. lia. }
-  rewrite El. cbn [obind]. rewrite scan_front_crash; [reflexivity|].
-  apply Forall_forall. intros y Hy. rewrite <- Er in Hy.
-  assert (Fy : d_small y) by (rewrite Forall_forall in Hs; auto).
-  assert (F0 : d_small c0) by (rewrite Forall_forall in Hs; apply Hs; rewrite Er; left; reflexivity).
-  apply deq_spec; [apply Fy|apply F0|]. apply Heq; apply (Permutation_in _ (Permutation_sym P)); auto.
-  rewrite Er; left; reflexivity.
+  intros Hsmall Heq.
+  destruct fracture_cuts_run as (c0 & body & cl & P & S & Fr & _ & Hrun).
+  assert (In0 : In c0 coords) by (apply (Permutation_in _ (Permutation_sym P)); left; reflexivity).
+  assert (Inl : In cl coords).
+  { apply (Permutation_in _ (Permutation_sym P)). right. apply in_or_app; right. left; reflexivity. }
+  assert (Hs := axis_coords_small ax pts Hsmall). rewrite Forall_forall in Hs.
+  destruct Hrun as (_ & E); [rewrite (Heq c0 cl In0 Inl); lra|].
+  exists c0, cl. split; [exact In0|]. split; [exact Inl|]. split; [exact E|].
+  destruct (midpoint_same c0 cl (Hs _ In0) (Hs _ Inl) (Heq c0 cl In0 Inl)) as (F & M).
+  split; [exact F|]. intros x Hx. rewrite M. apply Heq; auto.
 Qed.
 End Main.
+
+Theorem fracture_cuts_no_crash_lemma : forall (max_points : N) (pts : list dpoint),
+  forallb pt_finite pts = true -> (4 < max_points)%N -> (max_points < N.of_nat (length pts))%N ->
+  (Z.of_N (N.of_nat (length pts)) < 2 ^ 53)%Z ->
+  exists cs, fracture_cuts max_points pts = Ok (Cuts (choose_x_axis (bounding_box pts)) cs) /\
+    (1 <= length cs)%nat /\ (N.of_nat (length cs) <= N.of_nat (length pts) / max_points)%N.
+Proof. exact fracture_cuts_no_crash_main. Qed.
+
+Theorem fracture_cuts_ok_lemma : forall (max_points : N) (pts : list dpoint),
+  Forall pt_small pts -> (4 < max_points)%N -> (max_points < N.of_nat (length pts))%N ->
+  (Z.of_N (N.of_nat (length pts)) < 2 ^ 53)%Z ->
+  ~ all_equal (axis_coords (choose_x_axis (bounding_box pts)) pts) ->
+  exists cs, fracture_cuts max_points pts = Ok (Cuts (choose_x_axis (bounding_box pts)) cs) /\
+    cuts_spec (axis_coords (choose_x_axis (bounding_box pts)) pts) cs (N.of_nat (length pts) / max_points).
+Proof. intros mp pts Hs H4 Hn H53. exact (fracture_cuts_ok_main mp pts (pts_finite pts Hs) H4 Hn H53 Hs). Qed.
+
+Theorem fracture_cuts_all_equal_lemma : forall (max_points : N) (pts : list dpoint),
+  Forall pt_small pts -> (4 < max_points)%N -> (max_points < N.of_nat (length pts))%N ->
+  (Z.of_N (N.of_nat (length pts)) < 2 ^ 53)%Z ->
+  all_equal (axis_coords (choose_x_axis (bounding_box pts)) pts) ->
+  exists c c', In c (axis_coords (choose_x_axis (bounding_box pts)) pts) /\
+    In c' (axis_coords (choose_x_axis (bounding_box pts)) pts) /\
+    fracture_cuts max_points pts = Ok (Cuts (choose_x_axis (bounding_box pts)) [midpoint c c']) /\
+    d_finite (midpoint c c') = true /\
+    forall x, In x (axis_coords (choose_x_axis (bounding_box pts)) pts) -> R64 (midpoint c c') = R64 x.
+Proof. intros mp pts Hs H4 Hn H53. exact (fracture_cuts_all_equal_main mp pts (pts_finite pts Hs) H4 Hn H53 Hs). Qed.
+
+(* the code before commit e912cb9 on the same inputs: the scan ran off the array *)
+Theorem fracture_cuts_unrepaired_crash_lemma : forall (max_points : N) (pts : list dpoint),
+  forallb pt_finite pts = true -> (4 < max_points)%N -> (max_points < N.of_nat (length pts))%N ->
+  all_equal (axis_coords (choose_x_axis (bounding_box pts)) pts) ->
+  fracture_cuts_unrepaired max_points pts = Crash.
+Proof.
+  intros mp pts Hfin H4 Hn Heq.
+  unfold fracture_cuts_unrepaired, fracture_cuts_with. rewrite Hfin. cbn [negb].
+  destruct (N.leb_spec mp 4); [lia|]. destruct (N.leb_spec (N.of_nat (length pts)) mp); [lia|].
+  set (ax := choose_x_axis (bounding_box pts)) in *. set (coords := axis_coords ax pts) in *.
+  destruct (sort_ordered_permutation_lemma dbl dlt_fin coords dlt_fin_swo) as (r & E & P & _).
+  rewrite E. cbn [obind].
+  assert (L : length r = length pts).
+  { rewrite <- (Permutation_length P). unfold coords, axis_coords. apply map_length. }
+  assert (Fr : all_fin r).
+  { unfold all_fin. apply Forall_forall. intros x Hx. apply Permutation_sym in P.
+    assert (Hc := Permutation_in x P Hx). generalize (axis_coords_fin ax pts Hfin). unfold all_fin. rewrite Forall_forall. auto. }
+  destruct (nonempty_ends r) as (c0 & body & cl & Er); [lia|].
+  unfold cuts_of_sorted_with. rewrite Er. assert (E0 : get (c0 :: body ++ [cl]) 0 = Ok c0) by reflexivity. rewrite E0. cbn [obind].
+  assert (El : get (c0 :: body ++ [cl]) (Z.of_N (N.of_nat (length pts)) - 1) = Ok cl).
+  { replace (Z.of_N (N.of_nat (length pts)) - 1)%Z with (Z.of_nat (length (c0 :: body))).
+    - apply (get_app_mid (c0 :: body) cl []).
+    - rewrite <- L, Er. cbn [length]. rewrite app_length. cbn [length]. lia. }
+  rewrite El. cbn [obind]. rewrite scan_front_unrepaired_crash; [reflexivity|].
+  apply Forall_forall. intros y Hy. rewrite <- Er in Hy. unfold all_fin in Fr. rewrite Forall_forall in Fr.
+  apply deq_spec; [apply Fr; auto|apply Fr; rewrite Er; left; reflexivity|].
+  apply Heq; apply (Permutation_in _ (Permutation_sym P)); auto. rewrite Er; left; reflexivity.
+Qed.
 
 (* ====================================================================== part 8 *)
 
@@ -1260,10 +1413,22 @@ Proof.
   assert (0 = 1); [|lra]. apply H; unfold axis_coords, ex_pts; rewrite map_map; cbn [map fst snd]; [left|right; left]; reflexivity.
 Qed.
 
-(* all vertices one point: the model says Crash *)
-Example fracture_cuts_crash_example :
-  fracture_cuts 5 (repeat (dbl_of_bits 0x3FF8000000000000, dbl_of_bits 0x4004000000000000) 6) = Crash.
-Proof. vm_compute. reflexivity. Qed.
+(* all vertices one point (1.5, 2.5): the y axis, the single cut 2.5 *)
+Example fracture_cuts_one_point_example :
+  match fracture_cuts 5 (repeat (dbl_of_bits 0x3FF8000000000000, dbl_of_bits 0x4004000000000000) 6) with
+  | Ok (Cuts ax cs) => ax = false /\ map bits_of_dbl cs = [0x4004000000000000%N]
+  | _ => False
+  end.
+Proof. vm_compute. split; reflexivity. Qed.
+
+(* regression witness: the code before commit e912cb9 read past the coords allocation on that input *)
+Theorem fracture_cuts_unrepaired_refuted : exists (max_points : N) (pts : list dpoint),
+  forallb pt_finite pts = true /\ (4 < max_points)%N /\ (max_points < N.of_nat (length pts))%N /\
+  fracture_cuts_unrepaired max_points pts = Crash.
+Proof.
+  exists 5%N, (repeat (dbl_of_bits 0x3FF8000000000000, dbl_of_bits 0x4004000000000000) 6).
+  split; [vm_compute; reflexivity|]. split; [lia|]. split; [cbn; lia|]. vm_compute. reflexivity.
+Qed.
 
 Example cut_index_example :
   cut_index (cut_frac 1000 7) 3 = Ok 375%N /\ (1 <= 3)%N /\ (3 <= 7)%N /\ (7 < 1000)%N /\ (1000 < 2 ^ 53)%Z /\ (7 <= 2 ^ 51)%Z.
